@@ -714,7 +714,7 @@ func TestContextTable(t *testing.T) {
 // scope where it stands, not on what the same pattern text meant in a script (or block) checked earlier in the process.
 func TestAliasEnvironments(t *testing.T) {
 	n := 0
-	for round, order := range [][]int{{0, 1, 2, 3, 4, 5, 6}, {1, 0, 3, 2, 5, 4, 6}, {3, 4, 0, 6, 1, 2, 5}, {6, 5, 4, 3, 2, 1, 0}} {
+	for round, order := range [][]int{{0, 1, 2, 3, 4, 5, 6, 7, 8, 9, 10, 11}, {1, 0, 3, 2, 5, 4, 6, 11, 10, 9, 8, 7}, {3, 4, 0, 6, 1, 2, 5, 8, 10, 7, 11, 9}, {11, 10, 9, 8, 7, 6, 5, 4, 3, 2, 1, 0}} {
 		al := fmt.Sprintf("al%d", round)
 		g := "grok(_, \"%{" + al + ":n}\")"
 		scripts := []struct {
@@ -728,6 +728,13 @@ func TestAliasEnvironments(t *testing.T) {
 			{"x = 1\n" + g, false},
 			{"add_pattern(\"" + al + "\", \"%{INT}\")\nx = 1\n" + g, true},
 			{"for i in [1] { add_pattern(\"" + al + "\", \"y\") }\nfor i in [1] { " + g + " }", false},
+			// the enclosing frame has aliases of its own; the alias in question is defined in a block and used after it,
+			// in a sibling branch, after a loop; an inner redefinition does not reach the outer use
+			{"add_pattern(\"outer" + al + "\", \"x\")\nif true { add_pattern(\"" + al + "\", \"y\") }\n" + g, false},
+			{"add_pattern(\"outer" + al + "\", \"x\")\nif true { add_pattern(\"" + al + "\", \"y\") } else { " + g + " }", false},
+			{"add_pattern(\"outer" + al + "\", \"x\")\nfor i in [1] { add_pattern(\"" + al + "\", \"y\") }\nif true { " + g + " }", false},
+			{"add_pattern(\"" + al + "\", \"[a-z]+\")\nif true { add_pattern(\"" + al + "\", \"(\") }\n" + g, true},
+			{"add_pattern(\"" + al + "\", \"[a-z]+\")\nfor i in [1] { if true { add_pattern(\"" + al + "\", \"\\\\d\") } }\nif true { " + g + " }", true},
 		}
 		for _, k := range order {
 			sc := scripts[k]
@@ -746,7 +753,7 @@ func TestAliasEnvironments(t *testing.T) {
 			n++
 		}
 	}
-	evid.Exhaustive("one pattern text x 7 alias environments x 4 check orders", n)
+	evid.Exhaustive("one pattern text x 12 alias environments x 4 check orders", n)
 }
 
 func TestFixedOffenders(t *testing.T) {
